@@ -1,21 +1,28 @@
 #!/bin/bash
-# try_mutant.sh <seeded-dir> <profiles> [n] : apply the patch to /repo, rebuild the harness, run diffrun, revert.
+# try_mutant.sh <seeded-dir> <profiles> [n] : in an isolated scratch worktree of /repo with the patch
+# applied, build a private copy of the harness against it and run diffrun; nothing in /repo or /verif/build changes.
 set -u
 D=$1; PROF=$2; N=${3:-300}
+export GOFLAGS=-mod=mod GOPROXY=off GOSUMDB=off GOTOOLCHAIN=local CGO_ENABLED=1
 P=$(python3 -c "import json;print(json.load(open('$D/meta.json'))['property'])")
-git -C /repo apply $D/patch.diff || { echo "cannot apply"; exit 2; }
-/verif/harness/build.sh > /tmp/try-build.log 2>&1 || { echo "build failed"; git -C /repo checkout -- .; exit 2; }
-/verif/build/diffrun -prop $P -profiles $PROF -seed 77 -n $N -out /tmp/try-replays > /tmp/try-out.json 2>/tmp/try-err.log
+W=$(mktemp -d /tmp/trymut-XXXX)
+git -C /repo worktree add -q --detach $W/repo HEAD || exit 2
+( cd $W/repo && git apply $D/patch.diff ) || { echo "$D cannot apply"; git -C /repo worktree remove --force $W/repo; rm -rf $W; exit 2; }
+cp -r /verif/harness $W/harness
+sed -i "s#=> /repo#=> $W/repo#" $W/harness/go.mod
+cp $W/repo/go.sum $W/harness/go.sum
+( cd $W/harness && go build -tags verif -o $W/diffrun ./cmd/diffrun ) > $W/build.log 2>&1 || { echo "$D build failed: $(tail -3 $W/build.log)"; git -C /repo worktree remove --force $W/repo; rm -rf $W; exit 2; }
+$W/diffrun -prop $P -profiles $PROF -seed 77 -n $N -out $W/replays > $W/out.json 2>$W/err.log
 rc=$?
-git -C /repo checkout -- .
-/verif/harness/build.sh > /dev/null 2>&1
 python3 - <<PY
 import json
 try:
-    d=json.load(open('/tmp/try-out.json'))
+    d=json.load(open('$W/out.json'))
     kinds=[f['kind'] for f in (d['failures'] or [])]
-    print("$D rc=$rc failures:", kinds, "wall", round(d['wall_s'],1))
-    for f in (d['failures'] or [])[:1]: print("   ", f['detail'][:300].replace("\n"," | "))
+    print("$(basename $D) rc=$rc failures:", kinds, "wall", round(d['wall_s'],1))
+    for f in (d['failures'] or [])[:1]: print("   ", f['detail'][:260].replace("\n"," | "))
 except Exception as e:
-    print("$D rc=$rc no summary", e, open('/tmp/try-err.log').read()[-300:])
+    print("$(basename $D) rc=$rc no summary", e, open('$W/err.log').read()[-300:])
 PY
+git -C /repo worktree remove --force $W/repo
+rm -rf $W
